@@ -292,7 +292,7 @@ class BranchFacts:
 
 
 def path_condition(cfg: CFG, region_entry: int, target: int, region: set[int], fb: FormulaBuilder,
-                   exc: bool = False):
+                   exc: bool = False, expand=None):
     """Exact condition (formula over the tests inside the region) under which control, having
     entered the acyclic region at region_entry, reaches target.  Back edges to region_entry are
     ignored (one iteration of a loop body)."""
@@ -320,7 +320,7 @@ def path_condition(cfg: CFG, region_entry: int, target: int, region: set[int], f
             if pn.kind == 'test' and lab in ('true', 'false') and p != region_entry:
                 # (the region entry's own test - a while condition - is not part of the condition
                 # *within* one iteration)
-                t = fb.build(pn.ast)
+                t = fb.build(expand(pn.ast, p) if expand is not None else pn.ast)
                 c = f_and(c, t if lab == 'true' else f_not(t))
             alts.append(c)
         onstack.discard(n)
@@ -331,8 +331,41 @@ def path_condition(cfg: CFG, region_entry: int, target: int, region: set[int], f
     return cond(target)
 
 
+def guard_like(e: ast.AST) -> bool:
+    """Definitions that may be substituted into a guard automatically: named booleans and aliases of
+    sub-expressions - comparisons, boolean operators, attribute chains, subscripts, constants and calls to
+    a few value-only builtins.  Constructor calls and other calls are left alone."""
+    if isinstance(e, (ast.Name, ast.Constant)):
+        return True
+    if isinstance(e, ast.Attribute):
+        return guard_like(e.value)
+    if isinstance(e, ast.Subscript):
+        return guard_like(e.value) and guard_like(e.slice)
+    if isinstance(e, ast.Compare):
+        return guard_like(e.left) and all(guard_like(c) for c in e.comparators)
+    if isinstance(e, ast.BoolOp):
+        return all(guard_like(v) for v in e.values)
+    if isinstance(e, ast.UnaryOp):
+        return guard_like(e.operand)
+    if isinstance(e, ast.BinOp):
+        return guard_like(e.left) and guard_like(e.right)
+    if isinstance(e, ast.IfExp):
+        return guard_like(e.test) and guard_like(e.body) and guard_like(e.orelse)
+    if isinstance(e, (ast.Tuple, ast.List, ast.Set)):
+        return all(guard_like(x) for x in e.elts)
+    if isinstance(e, ast.Call):
+        d = dotted(e.func) or ''
+        last = d.split('.')[-1]
+        if last in ('type', 'len', 'isinstance', 'getattr', 'hasattr', 'is_task', 'is_task_type', 'bool', 'get', 'fullmatch', 'match',
+                    'startswith', 'endswith', 'max', 'min', 'cast') and not any(kw.arg is None for kw in e.keywords):
+            base_ok = guard_like(e.func.value) if isinstance(e.func, ast.Attribute) else True
+            return base_ok and all(guard_like(a) for a in e.args) and all(guard_like(k.value) for k in e.keywords)
+        return False
+    return False
+
+
 def expand_locals(cfg: CFG, rd: ReachingDefs, expr: ast.AST, at: int, depth: int = 4,
-                  stop: Iterable[str] = ()) -> ast.AST:
+                  stop: Iterable[str] = (), only=None) -> ast.AST:
     """Substitute local names in expr by their defining expressions when they have exactly one
     reaching definition of the form `name = <expr>` at node `at` (recursively, bounded).
     Parameters, loop targets, with-targets and names with several definitions stay as they are."""
@@ -352,6 +385,8 @@ def expand_locals(cfg: CFG, rd: ReachingDefs, expr: ast.AST, at: int, depth: int
                 return node
             dv = rd.def_value(dn, node.id)
             if dv is None or dv[0] != 'value':
+                return node
+            if only is not None and not only(dv[1]):
                 return node
             # the defining expression is evaluated at dn: expand it there
             inner = X(dn, self.d - 1).visit(copy.deepcopy(dv[1]))
